@@ -833,6 +833,9 @@ func runScenario(t *testing.T, sc *kernel.Scenario, trace bool) *kernel.Result {
 			// reported only if no oracle explains it (first violation wins)
 			s.Fail("C05.no-quiescence", "the watcher was still producing observable events 2 simulated seconds after the last action")
 		}
+		if sc.Cfg("race_start_stop", 0) == 1 && !s.Failed() {
+			h.raceStartStop()
+		}
 		h.mu.Lock()
 		h.completed = true
 		h.mu.Unlock()
@@ -856,6 +859,74 @@ func runScenario(t *testing.T, sc *kernel.Scenario, trace bool) *kernel.Result {
 		}
 	}
 	return res
+}
+
+// raceStartStop is an epilogue outside the modelled history: with the ledger
+// channel watched and no sub-channel watched, StopWatching(parent) races with
+// StartWatchingSubChannel(parent, sub). The family lock serialises the two in
+// either order - the stop wins and the start fails, or the start wins and the
+// stop is refused (sub-channels present). Both succeeding would leave a
+// sub-channel watched under a de-registered parent.
+func (h *harness) raceStartStop() {
+	h.mu.Lock()
+	ok := h.ch[0].watched && h.ch[0].stopInFlight == 0
+	sub := 0
+	for k := 1; k <= maxSubs; k++ {
+		c := h.ch[k]
+		if c.watched || c.startInFlight || c.stopInFlight > 0 {
+			ok = false
+		}
+		if sub == 0 && !c.started {
+			sub = k
+		}
+	}
+	h.frozen = true
+	h.mu.Unlock()
+	if !ok || sub == 0 {
+		h.s.Count("probe.race_start_stop_not_applicable", 1)
+		return
+	}
+	h.s.Count("fault.race_start_stop", 1)
+	var startErr, stopErr error
+	var pan string
+	var wg sync.WaitGroup
+	gap := h.s.Delay(h.key("race:gap"), 0, 60*time.Microsecond)
+	first := h.s.Chance(h.key("race:first"), 0.5)
+	tx := mkTx(sub, 0, nil)
+	start := func() {
+		defer wg.Done()
+		defer recoverInto(&pan)
+		_, _, startErr = h.w.StartWatchingSubChannel(context.Background(), staticIDs[0], channel.SignedState{Params: staticParams[sub], State: tx.State, Sigs: tx.Sigs})
+	}
+	stop := func() {
+		defer wg.Done()
+		defer recoverInto(&pan)
+		stopErr = h.w.StopWatching(context.Background(), staticIDs[0])
+	}
+	a, b := start, stop
+	if !first {
+		a, b = stop, start
+	}
+	wg.Add(2)
+	go a()
+	time.Sleep(gap)
+	go b()
+	wg.Wait()
+	h.s.Note("race: StartWatchingSubChannel -> %s, StopWatching(parent) -> %s", errText(startErr), errText(stopErr))
+	switch {
+	case pan != "":
+		h.s.Fail("C05.panic@start-stop-race", "StartWatchingSubChannel racing with StopWatching(parent) panicked: %s", pan)
+	case startErr == nil && stopErr == nil:
+		h.s.Fail("C05.parent-stopped-while-sub-started", "StopWatching(parent) succeeded although a StartWatchingSubChannel that also succeeded was in flight: the sub-channel is watched under a de-registered parent")
+	}
+	h.mu.Lock()
+	if startErr == nil {
+		h.ch[sub].watched = true // for the cleanup
+	}
+	if stopErr == nil {
+		h.ch[0].watched = false
+	}
+	h.mu.Unlock()
 }
 
 // quiesce waits until nothing harness-observable has happened for 50
